@@ -221,6 +221,20 @@ impl Prop for C09 {
                 }
             }
         }
+        // ... and when the other factors of the compound cancel among themselves (by dimension, not
+        // by name: N*m/J): the degree is still a factor of a product, on either side of the cast
+        for (a, b) in pairs {
+            for x in ["20", "-3.5"] {
+                for (pre, post) in [("N*m*", "/J"), ("W*s*", "/J"), ("V*A*", "/W"), ("J*", "/N*m")] {
+                    // (with the kelvin in the product and a lone offset scale as the target, the offset
+                    // scale *is* alone with power one: not the statement's case)
+                    if a != "K" && a != "kelvin" {
+                        sink(Case::with("mixed", format!("{x} {pre}{a}{post} to {b}"), serde_json::json!({"x": x, "a": a, "b": b, "n": 1})));
+                    }
+                    sink(Case::with("mixed", format!("{x} {pre}{a}{post} to {pre}{b}{post}"), serde_json::json!({"x": x, "a": a, "b": b, "n": 1})));
+                }
+            }
+        }
         // products/quotients of two temperatures must not apply offsets either
         for x in ["1", "20"] {
             for (a, b) in pairs {
